@@ -133,7 +133,7 @@ type c11World struct {
 	env  *simrt.Env
 	w    *pipeWorld
 	sc   *SourceControl
-	kind int    // 0 scripted, 1 triangle, 2 simpulse, 3 lancero (simulated card)
+	kind int // 0 scripted, 1 triangle, 2 simpulse, 3 lancero (simulated card)
 	ls   *LanceroSource
 	name string // Start name of the built-in source
 	main *AnySource
@@ -182,6 +182,7 @@ type c11World struct {
 	reqTask                         int
 	procSignal                      chan struct{}
 	procDigest                      string
+	procDigestOf                    *AnySource    // the source the digest was taken of (the harness's notion of "the running source" lags behind during a two-client episode)
 	enteredSignal                   chan struct{} // closed when the core loop enters the request of the call in flight
 	overlap                         bool          // a call of the second client is in flight: replies are not pinned down
 	two                             bool          // this run has a second client
@@ -192,17 +193,17 @@ type c11World struct {
 	callState                       int
 	lastKind                        string
 
-	fs         *simrt.FaultFS
+	fs          *simrt.FaultFS
 	reconfigure func(nchan int) error // configures the inactive main source for another number of channels
 	mapMaybe    bool                  // a TES map may be loaded in the map server
 	nmaps       int
-	faultClass string
-	persist    bool // the failure stays: from its first occurrence on, every operation of the class fails
-	full       bool // the failure is a full disk for the class: the file is created, every write through its handle fails
-	fullNoted  int  // full-disk handles counted into fires so far
-	fires      int  // how often the injected failure has happened so far
-	nreq       int
-	nerr       int
+	faultClass  string
+	persist     bool // the failure stays: from its first occurrence on, every operation of the class fails
+	full        bool // the failure is a full disk for the class: the file is created, every write through its handle fails
+	fullNoted   int  // full-disk handles counted into fires so far
+	fires       int  // how often the injected failure has happened so far
+	nreq        int
+	nerr        int
 }
 
 func c11Body(env *simrt.Env) {
@@ -233,7 +234,7 @@ func c11Body(env *simrt.Env) {
 		}
 		return d
 	}
-	triHalf := 50 + 50*simrt.Draw(3)                // TriangleSource: a buffer is one cycle of 2*(max-min) samples
+	triHalf := 50 + 50*simrt.Draw(3)               // TriangleSource: a buffer is one cycle of 2*(max-min) samples
 	spNsamp := []int{107, 153, 211}[simrt.Draw(3)] // SimPulseSource: a buffer is one pulse of Nsamp samples
 	var blockTime time.Duration
 	switch kind {
@@ -361,7 +362,9 @@ func c11Body(env *simrt.Env) {
 		all := c.allChannels()
 		ts := TriggerState{AutoTrigger: true, AutoDelay: time.Duration(float64(c.nsamp+simrt.Draw(2*c.nsamp)) / rate * float64(time.Second)), EdgeLevel: 100, EdgeRising: true}
 		c.call(&c11Req{kind: "ConfigureTriggers", desc: "auto on all channels", expect: c11OK, needsSource: true,
-			do: func() error { return c.sc.ConfigureTriggers(&FullTriggerState{ChannelIndices: all, TriggerState: ts}, &ok) }})
+			do: func() error {
+				return c.sc.ConfigureTriggers(&FullTriggerState{ChannelIndices: all, TriggerState: ts}, &ok)
+			}})
 	}
 
 	c.nreq = 8 + simrt.Draw(16)
@@ -470,14 +473,14 @@ func (c *c11World) monitor(ev simrt.RegionEvent) {
 				simrt.Note("C11.mutual-exclusion", "mutex:processing-during-request", "ProcessSegments entered by task %d while a request is being executed (request regions %d, closures %d)", ev.TaskID, c.inRequest, c.inClosure)
 			}
 			c.inProcess++
-			c.procDigest = c.digest()
+			c.procDigest, c.procDigestOf = c.digest(), c.any
 			if c.procSignal != nil {
 				close(c.procSignal)
 				c.procSignal = nil
 			}
 		} else {
 			c.inProcess--
-			if d := c.digest(); d != c.procDigest && c.inProcess == 0 {
+			if d := c.digest(); d != c.procDigest && c.inProcess == 0 && c.procDigestOf == c.any {
 				simrt.Note("C11.mutual-exclusion", "mutex:settings-changed-during-processing", "settings that only requests change were different when ProcessSegments returned from what they were when it started (request in flight: %v %s)\nbefore: %s\nafter:  %s", c.callActive, c.callKind, c.procDigest, d)
 			}
 			if c.callActive && !c.callEntered {
